@@ -252,6 +252,8 @@ def run(run: C.Run):
         cases = cases[::2]
     else:
         run.cov["exhaustive"] = True
+    # regression corpus: dense layouts on which two merged cohorts occupy the same blocks (fixed by 9d28530)
+    cases += [([0, 3, 4, 5, 7, 0, 1, 2, 4, 6, 0, 2, 3, 5, 2, 3, 4, 5, 7, 0, 1, 2, 5, 6, 1, 2, 4, 7, 1, 5, 6, 7], ((5, 5, 4, 5, 5, 4, 4),), 8, True)]
     cases += random_2d(rng, 3000 if thorough else 600)
     cases += random_dense(rng, 12000 if thorough else 2500)
     coq = planner_cases(run, cases)
